@@ -274,7 +274,7 @@ type world struct {
 }
 
 type counters struct {
-	steps, depthCapped, teardownStuck, staleAcceptDecided, probeRuns, probeNodeFailed atomic.Int64
+	steps, depthCapped, teardownStuck, staleAcceptDecided, probeRuns, probeNodeFailed, statesExpanded atomic.Int64
 }
 
 // progressCtr is bumped at every scheduler step of any execution (process-level watchdog).
@@ -325,7 +325,9 @@ func newWorld(c *explore.Ctx, cfg *Cfg, codec *gobCodec, cnt *counters) *world {
 	return w
 }
 
-func (w *world) dump(i int) resources.VerifTwoPCDump { return resources.VerifTwoPCDumpOf(w.nodes[i].rcvr) }
+func (w *world) dump(i int) resources.VerifTwoPCDump {
+	return resources.VerifTwoPCDumpOf(w.nodes[i].rcvr)
+}
 
 // ---------------------------------------------------------------------------------------------
 // moves
@@ -982,7 +984,7 @@ func (t timeSet) rank(x int64) int {
 	return r
 }
 
-func (w *world) kInt(x int) { w.kb = strconv.AppendInt(w.kb, int64(x), 10) }
+func (w *world) kInt(x int)    { w.kb = strconv.AppendInt(w.kb, int64(x), 10) }
 func (w *world) kStr(s string) { w.kb = append(w.kb, s...) }
 func (w *world) kVal(v tla.Value) {
 	if v.IsNumber() {
@@ -1237,7 +1239,13 @@ func (w *world) run() {
 		if len(faults) > 0 || len(free) > 1 {
 			// only at real choice points, and before choosing: a re-run of a recorded schedule then never
 			// prunes (every Visit precedes a recorded choice), forced continuations are never cut
-			c.VisitOrPrune(w.key())
+			fresh := !c.Replaying()
+			if !c.Visit(w.key()) {
+				c.Prune()
+			}
+			if fresh {
+				w.cnt.statesExpanded.Add(1)
+			}
 		}
 		if len(faults) > 0 {
 			pick = w.choose(1+len(faults), "fault", true)
